@@ -26,6 +26,103 @@ def upvar_index(v, closure_path):
     return None
 
 
+def loop_form_r2(ctx, r2, rr, hop, ops_i):
+    """R2 when the hop messages are produced by `for (i, op) in operations.into_iter().enumerate()` (possibly through a
+    message-building helper): `to` is Some exactly when i + 1 == len (or i == len - 1)."""
+    P = ctx.P
+    acc = rr.acceptor
+    body = acc.body
+    hf, hb, hi, hv, hspan = hop
+    # the place where the hop's `to` is decided, in the acceptor's context
+    if hf.path == acc.path:
+        st = body.blocks[hb]["stmts"][hi]
+        to_op = [op for name, op in zip(st["rv"]["fields"], st["rv"]["ops"]) if name == "to"][0]
+        site_loc = (hb, hi)
+    else:
+        cs = common.single_call_site(P, hf)
+        to_param = None
+        tv = dict(hv[3])["to"]
+        if tv[0] == "param" and tv[1] == hf.path:
+            to_param = tv[2]
+        if cs is None or cs[0].path != acc.path or to_param is None:
+            r2.fail("C13.R2:hop-site", hf.path, hspan.replace("!x", ""), "the hop message is built in %s, which is not the acceptor, its closure, or a helper called once from the acceptor with `to` as a parameter: unrecognised-idiom" % hf.path)
+            return
+        cb_ = cs[1]
+        to_op = body.blocks[cb_]["term"]["args"][to_param]
+        site_loc = (cb_, len(body.blocks[cb_]["stmts"]))
+        # the helper puts its operation / to parameters into the message unchanged
+        opv = dict(hv[3])["operation"]
+        if not (opv[0] == "param" and opv[1] == hf.path):
+            r2.fail("C13.R2:helper-operation", hf.path, hspan.replace("!x", ""), "the message helper does not forward its operation parameter")
+    lps = [l for l in common.loops(P, acc) if l["is_loop"] and body.edge_dominates(l["some_edge"], site_loc[0])]
+    if len(lps) != 1:
+        r2.fail("C13.R2:loop", acc.path, acc.span, "the hop message is not produced inside a single loop over the operations: unrecognised-idiom")
+        return
+    l = lps[0]
+    ads, kind, src = common.iter_chain(l["iter"])
+    names = [a for a, _ in ads]
+    if names not in (["enumerate"], []) or kind != "into_iter" or set(ctx.roots(src)) != {P_(acc, ops_i)}:
+        r2.fail("C13.R2:iteration", acc.path, common.span_of_block_term(acc, l["next_bb"]), "hops are not generated one per operation in route order (adaptors %s over %s)" % (names, sorted(ctx.roots(src))))
+        return
+    r2.site("loop over operations.into_iter()%s, every element" % (".enumerate()" if names else ""))
+    item = l["item_root"]
+    if to_op["k"] not in ("copy", "move"):
+        r2.fail("C13.R2:to-shape", acc.path, hspan.replace("!x", ""), "the hop's `to` is a constant")
+        return
+    alts = P.alts_with_sites(acc, site_loc, to_op["place"])
+    somes = [(s, v) for s, v in alts if v[0] == "agg" and str(v[2]).endswith("Option::Some")]
+    nones = [(s, v) for s, v in alts if v[0] == "agg" and str(v[2]).endswith("Option::None")]
+    if len(somes) != 1 or len(nones) != 1 or len(alts) != 2:
+        r2.fail("C13.R2:to-shape", acc.path, hspan.replace("!x", ""), "the hop's `to` is not `if <cond> {Some(..)} else {None}`: unrecognised-idiom")
+        return
+    guard = None
+    for g in common.bool_guards(P, acc):
+        if body.edge_dominates(g.edge(True), somes[0][0][0]) and body.edge_dominates(g.edge(False), nones[0][0][0]):
+            guard = g
+    if guard is None or guard.cond[0] != "cmp" or guard.cond[1] != "eq" or len(guard.cond[2]) != 2:
+        r2.fail("C13.R2:guard", acc.path, hspan.replace("!x", ""), "the recipient is attached under a condition that is not a single equality test (expected: position of the hop == last position)")
+        return
+    where = common.span_of_block_term(acc, guard.b)
+
+    def strip(v):
+        while v[0] == "cast" or (v[0] == "proj" and v[2] == ("f", 0) and v[1][0] == "binop"):
+            v = v[2] if v[0] == "cast" else v[1]
+        return v
+
+    def is_len(v):
+        lens = [x for x in common.walk(v) if x[0] == "call" and isinstance(x[3], str) and generic_path(x[3]).endswith("Vec::len")]
+        rs = set(ctx.roots(v))
+        return len(rs) == 1 and list(rs)[0].startswith("C:std::vec::Vec::len@") and len(lens) == 1 and set(ctx.roots(lens[0][4][0])) == {P_(acc, ops_i)}
+
+    def is_index(v):
+        return set(ctx.roots(v)) == {item + ".0"}
+    a, b_ = strip(guard.cond[2][0]), strip(guard.cond[2][1])
+    ok = False
+    for x, y in ((a, b_), (b_, a)):
+        # index + 1 == len
+        if x[0] == "binop" and x[1] in ("Add", "AddWithOverflow") and is_len(y):
+            p, q = strip(x[2]), strip(x[3])
+            if (is_index(p) and q == ("const", "int", 1)) or (is_index(q) and p == ("const", "int", 1)):
+                ok = True
+        # index == len - 1
+        if is_index(x) and y[0] == "binop" and y[1] in ("Sub", "SubWithOverflow") and is_len(strip(y[2])) and strip(y[3]) == ("const", "int", 1):
+            ok = True
+    if not ok:
+        r2.fail("C13.R2:guard-operands", acc.path, where, "last-hop test compares %s with %s; expected `index + 1 == operations.len()` (or `index == len - 1`) for the enumerate index of this loop" % (ctx.show(a, 4), ctx.show(b_, 4)))
+        return
+    r2.site("last-hop test `index + 1 == operations.len()` on the loop's enumerate index at %s" % where)
+    r2.site("compared with operations.len() of the same route")
+    r2.site("`to` = Some(..) on the equal edge, None otherwise")
+    # the message is produced on every iteration (no condition other than `?`)
+    lb = body.reachable_from(l["some_edge"][1], cut_edges=(l["none_edge"],))
+    conds = [c for c in common.control_conditions(P, acc, site_loc[0]) if c["sw"] in lb and c["sw"] != l["switch"]]
+    conds = [c for c in conds if not (c["cond"][0] == "discr" and c["allowed"] in (["Continue"], ["Ok"]))]
+    if conds:
+        r2.fail("C13.R2:conditional-hop", acc.path, common.span_of_block_term(acc, site_loc[0]), "a hop message is skipped under some condition")
+    else:
+        r2.site("one hop message per iteration, unconditionally")
+
+
 def run(ctx):
     P = ctx.P
     r1 = ctx.inst("C13.R1", "every hop offers the router's entire balance of the hop's offer asset (shared with C07.R4)", floor=4)
@@ -47,8 +144,10 @@ def run(ctx):
 
     # ---- R2 -------------------------------------------------------------------------------------------
     hops = [(fn, b, i, v, span) for (fn, b, i, adt, var, v, span) in common.message_sites(P) if adt + "::" + var == HOP_VARIANT]
-    if len(hops) != 1 or hops[0][0].kind != "closure" or hops[0][0].parent != acc.path:
-        r2.fail("C13.R2:hop-site", acc.path, acc.span, "expected the hop message to be built once, in a closure of the route acceptor; found %s: unrecognised-idiom" % [h[0].path for h in hops])
+    if len(hops) == 1 and not (hops[0][0].kind == "closure" and hops[0][0].parent == acc.path):
+        loop_form_r2(ctx, r2, rr, hops[0], ops_i)
+    elif len(hops) != 1:
+        r2.fail("C13.R2:hop-site", acc.path, acc.span, "expected the hop message to be built at exactly one site; found %s: unrecognised-idiom" % [h[0].path for h in hops])
     else:
         cf, hb, hi, hv, hspan = hops[0]
         site = P.closure_site(cf.path)
